@@ -62,7 +62,7 @@ COMMON_ENS = [
 
 contract(MP + "solve", types={"self": {"solvers": "list[N]", "statistics": "i64[N,13]"}},
     ghost={"msg_proc": "int[M]", "msg_none": "bool[M]", "marker_pos": "int[N]", "yield_idx": "int[M]", "sol_table": "int[M,V]", "stats_table": "int[M,13]"}, ghost_init={"pos": 0, "yielded": "emptylist"},
-    requires=WF, env={"get_message": h_get, "yield": h_yield, "processes.append": h_noop, "processes[proc_idx].start": h_noop}, result="none", props=["C11", "C17", "C18", "C04"],
+    requires=WF, env={"get_message": h_get, "yield": h_yield, "processes.append": h_noop, "processes[*].start": h_noop}, result="none", props=["C11", "C17", "C18", "C04"],
     loops={1: dict(index="i", fingerprint="for enumerate(self.solvers)", invariant=[("C11.nomsg", "pos == 0 and len(yielded) == 0")], also_modifies=["processes"]),
            2: dict(fingerprint="while nb > 0", also_modifies=["pos", "yielded", "yield_idx"], decreases="M - pos", init_hints=INIT_HINTS,
                    invariant=INV + [
@@ -102,7 +102,7 @@ for variant, iface, cmp in (("min", "iface:Lt", "<="), ("max", "iface:Gt", ">=")
     contract(MP + "optimize", variant=variant,
         types={"self": {"solvers": "list[N]", "statistics": "i64[N,13]"}, "variable_idx": "int", "proc_func_name": "opaque", "comparison_func": "opaque"},
         ghost={"msg_proc": "int[M]", "msg_none": "bool[M]", "marker_pos": "int[N]", "sol_table": "int[M,V]", "stats_table": "int[M,13]"}, ghost_init={"pos": 0},
-        requires=WF + ["0 <= variable_idx and variable_idx < V"], env={"get_message": h_get, "processes.append": h_noop, "processes[proc_idx].start": h_noop}, calls={"comparison_func": iface},
+        requires=WF + ["0 <= variable_idx and variable_idx < V"], env={"get_message": h_get, "processes.append": h_noop, "processes[*].start": h_noop}, calls={"comparison_func": iface},
         result="none", props=["C11", "C17", "C18", "C03", "C04"],
         loops={1: dict(index="i", fingerprint="for enumerate(self.solvers)", invariant=[("C11.nomsg", "pos == 0")], also_modifies=["processes"]),
                2: dict(fingerprint="while nb > 0", also_modifies=["pos"], decreases="M - pos", init_hints=INIT_HINTS, var_types={"best_solution": best_cases},
@@ -147,14 +147,14 @@ def h_get_timeout(ex, st, node, args):
 
 
 def h_is_alive(ex, st, node, args):
-    p = st.env["proc_idx"]
+    p = ex.eval(node.func.value.slice, st)  # the index expression of processes[...]
     return z3.Select(st.heap[st.ghost_env["alive"].obj.id], zint(p))
 
 
 contract(MPM + "get_message", types={"solutions": "opaque", "processes": "list[N]", "done": "bool[N]"},
     ghost={"msg_proc": "int[M]", "alive": "bool[N]"}, ghost_init={"pos": 0}, result="none", props=["C18"],
     requires=["forall(j, 0, M, 0 <= msg_proc[j] and msg_proc[j] < N)"],
-    env={"solutions.get": h_get_timeout, "processes[proc_idx].is_alive": h_is_alive}, modifies=[],
+    env={"solutions.get": h_get_timeout, "processes[*].is_alive": h_is_alive}, modifies=[],
     loops={1: dict(fingerprint="while True", also_modifies=["pos"], invariant=[("C18.pos", "0 <= pos and pos <= M")],
                    step_ensures=[("C18.dead_worker_detected", "pos < M or forall(p, 0, N, done[p] or alive[p])")]),
            2: dict(index="q", fingerprint="for range(len(processes))", invariant=[("C18.scanned", "forall(p, 0, q, done[p] or alive[p])"), ("C18.pos", "0 <= pos and pos <= M")])},
